@@ -244,6 +244,13 @@ def check_written_document(w: World, text: str, mt, *, exp_key_map, exp_value_ma
         # 0 - may be written either way as long as it decodes to the tree)
         must_ref = (first is not None and first[1].did == m.did and not custom
                     and first[1].kind == m.kind and len(first_of_data.get(m.did, ())) == 1)
+        # ... and (round 15) whenever the node repeats the data and kind of the very first
+        # entry of its id group, however many other data values share that id: d1 d2 d1
+        # under one id must give full, full, position of the first entry
+        group = first_of_data.get(m.did, ())
+        if (not must_ref and first is not None and group and first is group[0]
+                and first[1].kind == m.kind and not custom):
+            must_ref = True
         if e.kind_of_entry == "ref":
             t = nodes[e.ref - 1]
             if not (t.data is m.data or (value_equal(t.data, m.data) and t.did == m.did)):
